@@ -150,7 +150,7 @@ pub fn reference_spec(scn: &Scenario, seed: u64) -> RunSpec {
     let mut cfg = RunCfg::reference();
     cfg.files = scn.files.clone();
     cfg.faults = scn.fixed_faults.clone();
-    RunSpec { cfg, ops: scn.ops.clone(), modules: scn.modules.clone(), sched: SchedSpec::fair(), seed, replay: None, est_len: 100, tail_bound: 0 }
+    RunSpec { cfg, ops: scn.ops.clone(), modules: scn.modules.clone(), sched: SchedSpec::fair(), seed, replay: None, est_len: 100, tail_bound: 0, tail_from: None }
 }
 
 #[derive(Clone, Debug, Serialize, Deserialize)]
@@ -338,7 +338,7 @@ pub fn run_case(prop: &dyn Property, base_seed: u64, case: u64, tier: Tier, repl
         cfg.max_steps = cfg.max_steps.max(sched.fault_stop + tail_bound + 1000);
         let nworkers = cfg.nworkers;
         let ops = prop.variant_ops(&scn, &mut vr).unwrap_or_else(|| scn.ops.clone());
-        let spec = RunSpec { cfg, ops, modules: scn.modules.clone(), sched, seed: vseed, replay: None, est_len: scn.est_len, tail_bound };
+        let spec = RunSpec { cfg, ops, modules: scn.modules.clone(), sched, seed: vseed, replay: None, est_len: scn.est_len, tail_bound, tail_from: None };
         let r = run_spec(prop, &scn, spec.clone(), false);
         absorb(&mut rep, &scn, &r, nworkers);
         for (k, n) in prop.run_probes(&scn, &r) {
@@ -409,6 +409,7 @@ pub fn minimise(prop: &dyn Property, scn: &Scenario, refdata: Option<&RefData>, 
     let key = viol.key.clone();
     let mut best = spec.clone();
     best.replay = Some(res.decisions.clone());
+    best.tail_from = res.tail_from;
     best.tail_bound = spec.tail_bound;
     let mut best_res = res.clone();
     let mut best_viol = viol.clone();
@@ -529,6 +530,7 @@ pub fn minimise(prop: &dyn Property, scn: &Scenario, refdata: Option<&RefData>, 
     // final: trim to decisions actually executed and re-run with a log
     let mut fin = best.clone();
     fin.replay = Some(best_res.decisions.clone());
+    fin.tail_from = best_res.tail_from;
     if let Some((r, v)) = attempt(&fin, &mut { 1 }) {
         best = fin;
         best_res = r;
@@ -542,6 +544,7 @@ pub fn report(prop: &dyn Property, scn: &Scenario, refdata: Option<&RefData>, sp
     let mut spec2 = spec.clone();
     if spec2.replay.is_none() {
         spec2.replay = Some(res.decisions.clone());
+        spec2.tail_from = res.tail_from;
     }
     let logged = run_spec(prop, scn, spec2.clone(), true);
     let log = logged.log.clone().unwrap_or_default();
